@@ -11,7 +11,7 @@ use serde_json::json;
 
 pub struct C17;
 
-const PRELUDE: &str = "v := 0\nxs := [1, 2, 3]\nob := {\"a\": 1}\nfn id(a) {\nreturn a\n}\nfn nf(a) {\nreturn a\n}\n";
+const PRELUDE: &str = "v := 0\nxs := [1, 2, 3]\nob := {\"a\": 1}\nfn id(a) {\nreturn a\n}\nfn nf(a) {\nreturn a\n}\nfn sf_() {\nreturn undef_q\n}\n";
 
 /// expressions whose evaluation fails
 pub const EXPR_ERRORS: &[(&str, &str)] = &[
@@ -53,6 +53,8 @@ pub const EXPR_ERRORS: &[(&str, &str)] = &[
     ("printing a self-containing list", "print(cyc)"),
     ("slot fails to parse", "$\"a ${1 +} b\""),
     ("slot fails", "$\"${undef_s}\""),
+    ("a function called from a slot fails", "$\"a${sf_()}b\""),
+    ("a function called from a call fails", "id(sf_())"),
 ];
 
 /// statements that fail
@@ -73,6 +75,10 @@ pub const STMT_ERRORS: &[(&str, &str)] = &[
     ("op-assignment on a missing key", "ob[\"k\"] += 1\n"),
     ("op-assignment type error on an element", "xs[0] += \"a\"\n"),
     ("op-assignment overflow on a property", "ob.a += 9223372036854775807\n"),
+    ("parameter list pattern mismatch", "fn dp_([a_, b_]) {\n}\ndp_([1])\n"),
+    ("parameter object pattern missing key", "fn dq_(c_, {k_}) {\n}\ndq_(1, {})\n"),
+    ("duplicate parameter of an anonymous function", "ga_ := fn (a_, a_) {\n}\nga_(1, 2)\n"),
+    ("parameter pattern on a non-list", "fn dr_([a_]) {\n}\ndr_(5)\n"),
     ("for over a non-iterable", "for e_ in 5 {\n}\n"),
     ("if condition is not a bool", "if 5 {\n}\n"),
     ("else-if condition is not a bool", "if false {\n} else if \"s\" {\n}\n"),
@@ -280,7 +286,7 @@ pub fn judge(c: &Case, r: &RefOutcome, o: &CliOutcome) -> Verdict {
                     }
                 }
                 RefResult::Err(e) => {
-                    if in_fn != e.func {
+                    if in_fn != e.func && !e.in_slot {
                         return viol("function-prefix", format!("{}: the failing construct is in {:?}, the diagnostic says {:?}: {:?}", c.meta, e.func, in_fn, first));
                     }
                     if e.stack.is_empty() {
